@@ -1,7 +1,101 @@
-//! Crash-point sweep (C07 / C14): placeholder, filled in below.
-use crate::program::Program;
+//! Crash-point sweep (C07 / C14): for one sampled program, re-run it once per callback invocation with a
+//! panic injected exactly there, then keep using the heap (remaining ops + epilogue).
+
+use crate::program::*;
+use crate::rng::{mix, Rng};
 use crate::stats::Stats;
 
-pub fn sweep_program(_prog: &Program, _prop: &'static str, _max_points: usize, _total: &mut Stats, _hashes: &mut Vec<u64>, _samples: &mut Vec<String>) -> bool {
+fn note_current(prog: &Program) {
+    // the exact program (with its fault plan) is on disk before it runs, so that a crash can be attributed
+    if let Ok(dir) = std::env::var("CCSIM_CURRENT_DIR") {
+        let _ = std::fs::write(format!("{}/current-{}.prog", dir, std::process::id()), prog.to_text());
+    }
+}
+
+/// Returns true if a violation was found (already printed).
+pub fn sweep_program(prog: &Program, prop: &'static str, max_points: usize, total: &mut Stats, hashes: &mut Vec<u64>, samples: &mut Vec<String>) -> bool {
+    let mut base = prog.clone();
+    base.faults.clear();
+    note_current(&base);
+    let r0 = crate::run_isolated(&base, prop, false);
+    if r0.violation.is_some() {
+        return true;
+    }
+    total.merge(&r0.stats);
+    // every callback invocation of every kind is a crash point
+    let mut points: Vec<Fault> = Vec::new();
+    for (i, (kind, _, _)) in FAULTS.iter().enumerate() {
+        for k in 0..r0.fault_counters[i] {
+            points.push(Fault { kind: *kind, k });
+        }
+    }
+    let all = points.len();
+    let mut rng = Rng::new(mix(prog.seed.0, 0x5EE9, prog.seed.1));
+    if all > max_points {
+        // keep the first and last invocation of every kind, sample the rest
+        let mut keep: Vec<Fault> = Vec::new();
+        for (i, (kind, _, _)) in FAULTS.iter().enumerate() {
+            let n = r0.fault_counters[i];
+            if n > 0 {
+                keep.push(Fault { kind: *kind, k: 0 });
+                if n > 1 {
+                    keep.push(Fault { kind: *kind, k: n - 1 });
+                }
+            }
+        }
+        while keep.len() < max_points {
+            let f = points[rng.below(points.len() as u64) as usize];
+            if !keep.contains(&f) {
+                keep.push(f);
+            }
+        }
+        points = keep;
+        *total.cap_hits.entry("sweep_points_sampled").or_insert(0) += 1;
+    }
+    total.add("sweep_programs", 1);
+    total.add("sweep_points_total", all as u64);
+    for f in points {
+        let mut p1 = base.clone();
+        p1.faults.push(f);
+        note_current(&p1);
+        let r1 = crate::run_isolated(&p1, prop, false);
+        if r1.violation.is_some() {
+            return true;
+        }
+        total.add("sweep_points_run", 1);
+        if r1.stats.nontrivial.contains_key(prop) {
+            hashes.push(r1.hash);
+            if samples.len() < 3 {
+                samples.push(p1.to_text());
+            }
+        }
+        total.merge(&r1.stats);
+        // a second, later fault for a third of the points
+        if rng.chance(3, 10) {
+            let kinds: Vec<usize> = (0..FaultKind::COUNT).filter(|i| r1.fault_counters[*i] > 0).collect();
+            if !kinds.is_empty() {
+                let ki = kinds[rng.below(kinds.len() as u64) as usize];
+                let k2 = rng.below(r1.fault_counters[ki] as u64) as u32;
+                let f2 = Fault { kind: FAULTS[ki].0, k: k2 };
+                if f2 != f {
+                    let mut p2 = p1.clone();
+                    p2.faults.push(f2);
+                    note_current(&p2);
+                    let r2 = crate::run_isolated(&p2, prop, false);
+                    if r2.violation.is_some() {
+                        return true;
+                    }
+                    total.add("sweep_pairs_run", 1);
+                    if r2.faults_fired >= 2 {
+                        total.add("sweep_pairs_both_fired", 1);
+                    }
+                    if r2.stats.nontrivial.contains_key(prop) {
+                        hashes.push(r2.hash);
+                    }
+                    total.merge(&r2.stats);
+                }
+            }
+        }
+    }
     false
 }
